@@ -79,6 +79,34 @@ def impl_case(args):
     return out
 
 
+def multi_case(args):
+    """several files of unmapped / missing extension in ONE run: each file's language is decided by that
+    file alone, so the run reports the union of the single-file runs, in every argument order"""
+    idx, order, cmds, root = args
+    proj = Path(root) / f"mu{idx}"
+    proj.mkdir(parents=True)
+    out = {"errors": [], "single": {}, "together": {}, "directory": {}}
+    files = {"deploy": "#!/usr/bin/env python3\n" + CONTENT["py"], "NOTES": "Release notes: 4242 things (see { } and if/for)\n" * 3,
+             "tool": "#!/bin/sh\n" + CONTENT["py"], "runner": "#!/usr/bin/python\n" + CONTENT["py"].replace("deep", "deeper"),
+             "data.cfg": CONTENT["py"], "script.cfg": "#!/usr/bin/env python\n" + CONTENT["py"], "a.py": CONTENT["py"]}
+    try:
+        for n, t in files.items():
+            (proj / n).write_text(t)
+        def run(c, names):
+            code, stdout = core.run_cli(["--project-root", str(proj), c, "--format", "json"] + names, cwd=proj)
+            vs = core.violations_json(stdout)
+            return None if vs is None else sorted([v["file_path"], v["rule_id"], v["line"], v["message"]] for v in vs)
+        for c in cmds:
+            out["single"][c] = {n: run(c, [n]) for n in files}
+            out["together"][c] = run(c, order)
+            out["directory"][c] = run(c, ["."])
+    except Exception as exc:  # noqa: BLE001
+        out["errors"].append(f"{type(exc).__name__}: {exc}")
+    finally:
+        shutil.rmtree(proj, ignore_errors=True)
+    return out
+
+
 def run(tier: str, seed: int, st: core.ProofStatus) -> core.Result:
     res = core.Result()
     res.rule = ("exhaustive matrix: 24 file-name variants (extensions in several letter cases, unsupported extensions, "
@@ -111,11 +139,47 @@ def run(tier: str, seed: int, st: core.ProofStatus) -> core.Result:
         meta.append({"ext": e, "content": ck, "name": name, "detect": meta[base_index[(e, ck)]]["detect"], "cfg": {sec: val},
                      "base": base_index[(e, ck)]})
         idx += 1
+    names = ["deploy", "NOTES", "tool", "runner", "data.cfg", "script.cfg", "a.py"]
+    orders = []
+    for _ in range(6 if tier == "quick" else 40):
+        o = list(names)
+        rng.shuffle(o)
+        orders.append(o)
+    orders += [["NOTES", "deploy", "tool", "runner", "data.cfg", "script.cfg", "a.py"], ["data.cfg", "script.cfg", "tool", "NOTES", "deploy", "runner", "a.py"]]
     try:
         if True:
             impls = core.pmap(impl_case, work, procs=16, chunksize=1)
+        multis = core.pmap(multi_case, [(k, o, ["nesting", "magic-numbers", "print-statements"], str(root)) for k, o in enumerate(orders)], procs=16)
     finally:
         shutil.rmtree(root, ignore_errors=True)
+    for o, mu in zip(orders, multis):
+        res.evaluations += 1
+        res.bump("multi_file_runs")
+        if mu["errors"]:
+            res.disagreements.append(core.Disagreement(case={"order": o}, impl=mu["errors"], model=None, spec=None, property_fails=True, note=mu["errors"][0][:500]))
+            continue
+        for c in mu["single"]:
+            union = sorted(v for n in o for v in (mu["single"][c][n] or []))
+            for label in ("together", "directory"):
+                got = mu[label][c]
+                if got != union:
+                    res.disagreements.append(core.Disagreement(
+                        case={"order": o, "cmd": c, "mode": label}, impl=got, model=union, spec=union, property_fails=True,
+                        note=f"`thailint {c}` on several extensionless/unmapped files ({label}) is not the union of the single-file runs: "
+                             f"extra {[v for v in (got or []) if v not in union][:2]} missing {[v for v in union if v not in (got or [])][:2]}"))
+            # expected languages from the model: shebang-python scripts are python, the rest unknown
+            for n, first in (("deploy", "#!/usr/bin/env python3"), ("NOTES", "Release"), ("tool", "#!/bin/sh"), ("runner", "#!/usr/bin/python"),
+                             ("data.cfg", "import re"), ("script.cfg", "#!/usr/bin/env python")):
+                suffix = "." + n.split(".")[1] if "." in n else ""
+                det = drv.call({"prop": PROP, "op": "detect", "suffix": suffix, "nonEmpty": True, "firstLine": first})
+                rep = bool(mu["single"][c][n])
+                if det["language"] == "unknown" and rep:
+                    res.disagreements.append(core.Disagreement(case={"file": n, "cmd": c}, impl=mu["single"][c][n][:2], model=det, spec=None, property_fails=True,
+                                                               note=f"{n} is of unrecognised type but `thailint {c}` reported on it"))
+                if det["language"] == "python" and not rep and c in ("nesting", "magic-numbers"):
+                    res.disagreements.append(core.Disagreement(case={"file": n, "cmd": c}, impl=[], model=det, spec=None, property_fails=True,
+                                                               note=f"{n} has a python shebang but `thailint {c}` reported nothing on it"))
+        res.nontrivial.add(core.canon(["multi", o]))
 
     def strip(vs, name):
         return [[r, l, c, m.replace(name, "<file>")] for r, l, c, m in vs]
